@@ -416,7 +416,8 @@ func c14ContentCheck(r *Run, fn *ssa.Function, kd, vd string) string {
 			return
 		}
 		if ci := r.D.Classify(c); ci != nil {
-			if _, tested := atoms[ci.Key]; tested {
+			// the comparison is a branch condition, and its key means this comparison wherever it is tested
+			if _, tested := atoms[ci.Key]; tested && c14AtomUnambiguous(r, fn, ci.Key) {
 				out = ci.Key
 			}
 		}
@@ -619,6 +620,14 @@ func (w *c14Writers) lift(t string, args []string, fn *ssa.Function, cs ssa.Call
 			}
 		}
 		scan(caller)
+		if len(stores) > 1 {
+			// assigned more than once: what the literal reads is the assignment that reaches this
+			// call site on every path, provided none may follow it (rules_t8c14.go)
+			if v := c14CellAt(loc, cs); v != nil {
+				return c14D(w.r, caller, v), true
+			}
+			return "", false
+		}
 		if len(stores) != 1 || stores[0].Parent() != caller {
 			return "", false
 		}
